@@ -27,34 +27,49 @@ def in_ranges(x, ranges):
 
 def identity_rows(chk, F, which):
     cfg = F.cfg
-    model, spec, P = scanners.product(F, which)
-    n = 0
-    for key in P.order:
-        cs, ss, cons, label = P.pairs[key]
-        shape = A.spec_shape(ss)
-        for cname, kind, rng in spec.classes:
-            if kind == 'noncc':
-                pass
-            elif kind == 'cc' and not any(in_ranges(x, spec.contributing) for x in range(rng[0], rng[1] + 1)):
-                pass
-            else:
-                continue
-            rows = [r for r in P.rows if r.pair_key == key and r.cname == cname]
-            status, why = 'proved', ''
-            if not rows:
-                status, why = 'unproven', 'no outcome'
-            for r in rows:
-                if r.outcome_kind != 'return':
-                    status, why = ('refuted' if r.outcome_kind == 'panic' else 'unproven'), '%s (%s)' % (r.outcome_kind, r.why)
-                elif r.outputs:
-                    status, why = 'refuted', 'a non-contributing message reports %d message(s)' % len(r.outputs)
-                elif not r.identity:
-                    status, why = 'refuted', 'a non-contributing message changes the state: %s -> %s' % (A.typestate_label(F, r.code_in), A.typestate_label(F, r.code_out))
-            n += 1
-            chk.ob('%s/transparent/%s/%s/%s/%s' % (PID, cfg, which, shape, cname), 'identity row', status,
-                   subject=fn_subject(F, model.sub_key('feed')), expected='reports nothing, store structurally identical',
-                   found=[scanners.describe_row(F, r) for r in rows][:2], why=why)
-    return n
+    model, spec, P0, allp = scanners.product(F, which)
+    rank = {'proved': 0, 'unproven': 1, 'refuted': 2}
+    merged, order = {}, []
+    for k in sorted(allp):
+        P = allp[k]
+        for key in P.order:
+            cs, ss, cons, label = P.pairs[key]
+            shape = A.spec_shape(ss)
+            for cname, kind, rng in spec.classes:
+                if kind == 'noncc':
+                    pass
+                elif kind == 'cc' and not any(in_ranges(x, spec.contributing) for x in range(rng[0], rng[1] + 1)):
+                    pass
+                else:
+                    continue
+                rows = [r for r in P.rows if r.pair_key == key and r.cname == cname]
+                status, why = 'proved', ''
+                if not rows:
+                    status, why = 'unproven', 'no outcome'
+                for r in rows:
+                    if r.outcome_kind != 'return':
+                        status, why = ('refuted' if r.outcome_kind == 'panic' else 'unproven'), '%s (%s)' % (r.outcome_kind, r.why)
+                    elif r.outputs:
+                        status, why = 'refuted', 'a non-contributing message reports %d message(s)' % len(r.outputs)
+                    elif r.code_out is None:
+                        status, why = 'unproven', 'state after the call not determined'
+                    elif not r.identity:
+                        status, why = 'refuted', 'a non-contributing message changes the state: %s -> %s' % (A.typestate_label(F, r.code_in), A.typestate_label(F, r.code_out))
+                if why:
+                    why = 'channel %d: %s' % (k, why)
+                ok = (shape, cname)
+                cur = (status, why, [scanners.describe_row(F, r) for r in rows][:2])
+                if ok not in merged:
+                    order.append(ok)
+                    merged[ok] = cur
+                elif rank[status] > rank[merged[ok][0]]:
+                    merged[ok] = cur
+    for shape, cname in order:
+        status, why, found = merged[(shape, cname)]
+        chk.ob('%s/transparent/%s/%s/%s/%s' % (PID, cfg, which, shape, cname), 'identity row', status,
+               subject=fn_subject(F, model.sub_key('feed')), expected='reports nothing, store structurally identical (all 16 channels)',
+               found=found, why=why)
+    return len(order)
 
 
 def true_set(F, fk):
@@ -143,20 +158,20 @@ def predicates(chk, F):
 
 def dispatch_set(F, which):
     """controller numbers whose CC row is not the identity in some reachable typestate"""
-    model, spec, P = scanners.product(F, which)
+    model, spec, P, allp = scanners.product(F, which)
     contributing = VS.of([])
     for key in P.order:
         cs, ss, cons, label = P.pairs[key]
         c0 = dict(cons)
-        c0.update({A.CUR_STATUS: VS(0xB0, 0xBF), A.CUR_D1: VS(0, 127), A.CUR_D2: VS(0, 127)})
-        I, outs = A.run_step(F, model, 'cc', cs, c0)
+        c0.update({A.CUR_STATUS: VS.one(0xB0), A.CUR_D1: VS(0, 127), A.CUR_D2: VS(0, 127)})
+        I, outs = A.run_step(F, model, 'cc', cs, c0, k=0)
         for o in outs:
             v = vs_of(A.CUR_D1, o.st.cons)
             if o.kind != 'return':
                 contributing = contributing.join(v)
                 continue
-            outs_m = A.extract_outputs(F, P.roles, o.value)
-            same = val_key(o.st.root().locals['self']) == val_key(cs)
+            outs_m = A.extract_outputs(F, P.roles, o.value, o.st)
+            same = o.new_state is not None and val_key(o.new_state) == val_key(cs)
             if outs_m or outs_m is None or not same:
                 contributing = contributing.join(v)
     return contributing
